@@ -30,4 +30,14 @@ for d in seeded/C??; do
         done
     done
 done
+# round 6: changes by code region (seeded/F??/round6), run against the checks recorded for them
+for d in seeded/F??/round6; do
+    for p in patch.diff patch2.diff; do
+        [ -f "$d/$p" ] || continue
+        m=$d/meta.json; [ "$p" = patch2.diff ] && m=$d/meta2.json
+        checks=$(python3 -c "import json,sys; print(' '.join(json.load(open('$m'))['confirmed_by_builder']['detected_by'][:2]))")
+        res=$(tools/mutlab.sh patch "$(pwd)/$d/$p" $checks 2>&1 | grep -E "^==|PATCH DOES NOT" | cut -c1-260 | tr '\n' ' ')
+        echo "$d/$p $res" >> "$LOG"
+    done
+done
 echo DONE >> "$LOG"
